@@ -9,14 +9,25 @@
 // are enumerated completely; two- and three-fault plans are sampled by seed.
 // Every fault-free scenario is also executed by the unrewritten package on the
 // real file system and must agree with the simulated run.
+//
+// A run is a short HISTORY of calls in one process: up to two earlier calls
+// (each in its own directories, each possibly hit by a fault in the middle)
+// come before the scenario under test, so that whatever the package keeps
+// between calls (pooled buffers, cached descriptors or names) is in the state
+// a failed or a successful earlier copy leaves behind. Every call of the history
+// is held to the same oracle. The real side runs the same history, fault-free,
+// in a child process of its own so that the real package starts from fresh
+// package state as the simulated one does.
 package main
 
 import (
 	"bytes"
+	"encoding/json"
 	"errors"
 	"fmt"
 	"io/fs"
 	"os"
+	"os/exec"
 	"path/filepath"
 	"strings"
 
@@ -28,7 +39,13 @@ import (
 	"simgo/simrt"
 )
 
-func main() { kit.Main(kit.World{Name: "fsworld", Run: run, Enum: enumerate}) }
+func main() {
+	if len(os.Args) == 3 && os.Args[1] == "-realfs" {
+		realChild(os.Args[2])
+		return
+	}
+	kit.Main(kit.World{Name: "fsworld", Run: run, Enum: enumerate})
+}
 
 var sizes = []int{0, 1, 4095, 32768, 32769, 65536, 100000, 1 << 20, sparseSize}
 
@@ -45,14 +62,18 @@ var dstKinds = []string{
 }
 
 type scenario struct {
-	op      int // 0 CopyFile, 1 MoveFile
-	size    int
-	srcKind int
-	dstKind int
+	Op      int `json:"op"` // 0 CopyFile, 1 MoveFile
+	Size    int `json:"size"`
+	SrcKind int `json:"src"`
+	DstKind int `json:"dst"`
 }
 
+// what an earlier call of a history is drawn from
+var preSizes = []int{1, 3, 4, 6} // indices into sizes: 1, 32768, 32769, 100000
+var preDst = []int{0, 2, 8, 10, 12, 13} // missing, existing-longer, hardlink-of-source, parent-missing, other-mount-*
+
 func (s scenario) String() string {
-	return fmt.Sprintf("%s(size=%d, src=%s, dst=%s)", []string{"CopyFile", "MoveFile"}[s.op], sizes[s.size], srcKinds[s.srcKind], dstKinds[s.dstKind])
+	return fmt.Sprintf("%s(size=%d, src=%s, dst=%s)", []string{"CopyFile", "MoveFile"}[s.Op], sizes[s.Size], srcKinds[s.SrcKind], dstKinds[s.DstKind])
 }
 
 func content(n int, salt byte) []byte {
@@ -90,9 +111,9 @@ type fsops interface {
 }
 
 func build(s scenario) (src, dst string, steps []func(fsops)) {
-	data := content(sizes[s.size], 1)
+	data := content(sizes[s.Size], 1)
 	src = "W/src.bin"
-	switch s.srcKind {
+	switch s.SrcKind {
 	case 0:
 		steps = append(steps, func(f fsops) { f.write("W/src.bin", data) })
 	case 1:
@@ -102,21 +123,21 @@ func build(s scenario) (src, dst string, steps []func(fsops)) {
 		steps = append(steps, func(f fsops) { f.mkdir("W/src.bin") })
 	}
 	srcTarget := "W/src.bin"
-	if s.srcKind == 2 {
+	if s.SrcKind == 2 {
 		srcTarget = "W/real-src.bin"
 	}
-	switch dstKinds[s.dstKind] {
+	switch dstKinds[s.DstKind] {
 	case "missing":
 		dst = "W/dst.bin"
 	case "existing-shorter":
 		dst = "W/dst.bin"
-		steps = append(steps, func(f fsops) { f.write("W/dst.bin", content(sizes[s.size]/2, 2)) })
+		steps = append(steps, func(f fsops) { f.write("W/dst.bin", content(sizes[s.Size]/2, 2)) })
 	case "existing-same-length":
 		dst = "W/dst.bin"
-		steps = append(steps, func(f fsops) { f.write("W/dst.bin", content(sizes[s.size], 6)) })
+		steps = append(steps, func(f fsops) { f.write("W/dst.bin", content(sizes[s.Size], 6)) })
 	case "existing-longer":
 		dst = "W/dst.bin"
-		steps = append(steps, func(f fsops) { f.write("W/dst.bin", content(sizes[s.size]+777, 3)) })
+		steps = append(steps, func(f fsops) { f.write("W/dst.bin", content(sizes[s.Size]+777, 3)) })
 	case "same-path":
 		dst = src
 	case "dot-slash-spelling":
@@ -129,7 +150,7 @@ func build(s scenario) (src, dst string, steps []func(fsops)) {
 		steps = append(steps, func(f fsops) { f.symlink(srcTarget, "W/alias.bin") })
 	case "hardlink-of-source":
 		dst = "W/hard.bin"
-		if s.srcKind != 1 {
+		if s.SrcKind != 1 {
 			steps = append(steps, func(f fsops) { f.link(srcTarget, "W/hard.bin") })
 		}
 	case "is-a-directory":
@@ -160,18 +181,21 @@ func build(s scenario) (src, dst string, steps []func(fsops)) {
 
 // ---- the simulated side ----
 
-type simOps struct{ f *sos.FS }
-
-func simPath(p string) string {
-	p = strings.Replace(p, "W/", "/work/", 1)
-	return strings.Replace(p, "M/", "/mnt2/", 1)
+type simOps struct {
+	f   *sos.FS
+	sub string // "" for the call under test, "/pre<i>" for an earlier call of the history
 }
-func (o simOps) write(p string, d []byte)    { o.f.WriteFile(simPath(p), d) }
-func (o simOps) mkdir(p string)              { o.f.MkdirAll(simPath(p)) }
-func (o simOps) symlink(target, link string) { o.f.SymlinkRaw(simPath(target), simPath(link)) }
-func (o simOps) link(a, b string)            { o.f.LinkRaw(simPath(a), simPath(b)) }
-func (o simOps) root() string                { return "/work" }
-func (o simOps) root2() string               { return "/mnt2" }
+
+func (o simOps) p(p string) string {
+	p = strings.Replace(p, "W/", "/work"+o.sub+"/", 1)
+	return strings.Replace(p, "M/", "/mnt2"+o.sub+"/", 1)
+}
+func (o simOps) write(p string, d []byte)    { o.f.WriteFile(o.p(p), d) }
+func (o simOps) mkdir(p string)              { o.f.MkdirAll(o.p(p)) }
+func (o simOps) symlink(target, link string) { o.f.SymlinkRaw(o.p(target), o.p(link)) }
+func (o simOps) link(a, b string)            { o.f.LinkRaw(o.p(a), o.p(b)) }
+func (o simOps) root() string                { return "/work" + o.sub }
+func (o simOps) root2() string               { return "/mnt2" + o.sub }
 
 type result struct {
 	Err       string `json:"err"`
@@ -218,6 +242,8 @@ type world struct {
 	sc   scenario
 	smp  map[string]any
 	nt   bool
+	// the primitive-call trace of each call of the history
+	calls [][]string
 }
 
 func (w *world) violate(class, detail string) {
@@ -226,7 +252,7 @@ func (w *world) violate(class, detail string) {
 			return
 		}
 	}
-	sig := class + " " + []string{"CopyFile", "MoveFile"}[w.sc.op] + " dst=" + dstKinds[w.sc.dstKind]
+	sig := class + " " + []string{"CopyFile", "MoveFile"}[w.sc.Op] + " dst=" + dstKinds[w.sc.DstKind]
 	w.viol = append(w.viol, kit.Violation{Prop: "C18", Class: class, Detail: w.sc.String() + ": " + detail, Sig: sig, Seq: simrt.Seq()})
 }
 
@@ -243,21 +269,100 @@ func run(ch simrt.Chooser, prop string, keep bool) *kit.Outcome {
 	return o
 }
 
+type fault struct{ at, kind int }
+
+type call struct {
+	sc     scenario
+	faults []fault
+	sub    string
+}
+
 func (w *world) main() {
 	ch := simrt.Choose
-	s := scenario{op: ch("sc.op", 2), size: ch("sc.size", len(sizes)), srcKind: ch("sc.src", len(srcKinds)), dstKind: ch("sc.dst", len(dstKinds))}
-	w.sc = s
+	s := scenario{Op: ch("sc.op", 2), Size: ch("sc.size", len(sizes)), SrcKind: ch("sc.src", len(srcKinds)), DstKind: ch("sc.dst", len(dstKinds))}
 	nFaults := ch("faults.n", 4)
-	f := sos.Reset()
-	src, dst, steps := build(s)
-	for _, st := range steps {
-		st(simOps{f})
-	}
+	mainCall := call{sc: s}
 	for i := 0; i < nFaults; i++ {
 		at := ch("fault.at", 96)
-		f.PlanK[at] = ch("fault.kind", 6)
+		mainCall.faults = append(mainCall.faults, fault{at, ch("fault.kind", 6)})
 	}
-	sp, dp := simPath(src), simPath(dst)
+	// the earlier calls of the history (none when the choices run out: the
+	// enumerated single-call scenarios)
+	var hist []call
+	nPre := ch("prelude.n", 3)
+	for i := 0; i < nPre; i++ {
+		c := call{sc: scenario{Op: ch("pre.op", 2), Size: preSizes[ch("pre.size", len(preSizes))], SrcKind: 0, DstKind: preDst[ch("pre.dst", len(preDst))]}, sub: fmt.Sprintf("/pre%d", i)}
+		if ch("pre.faulted", 4) != 0 {
+			c.faults = append(c.faults, fault{ch("pre.fault.at", 40), ch("pre.fault.kind", 6)})
+		}
+		hist = append(hist, c)
+	}
+	hist = append(hist, mainCall)
+	if nPre > 0 {
+		simrt.Probe("history_with_earlier_calls")
+	}
+
+	f := sos.Reset()
+	var results []result
+	var scs []scenario
+	anyFault := false
+	for i, c := range hist {
+		if c.sub != "" {
+			f.MkdirAll("/work" + c.sub)
+			f.MkdirAll("/mnt2" + c.sub)
+		}
+		res := w.doCall(f, c, i == len(hist)-1)
+		results = append(results, res)
+		scs = append(scs, c.sc)
+		if len(c.faults) > 0 {
+			anyFault = true
+		}
+		if i < len(hist)-1 && res.ErrClass != "nil" && len(c.faults) > 0 {
+			simrt.Probe("earlier_call_failed_by_fault")
+		}
+	}
+	w.nt = true
+	w.smp["history_calls"] = w.calls
+
+	// stub fidelity: the fault-free history on the real file system
+	if !anyFault && os.Getenv("FSWORLD_REALFS") != "0" {
+		real, rerr := realRun(scs)
+		switch {
+		case rerr != nil:
+			simrt.Probe("realfs_unavailable")
+			simrt.Note("realfs", rerr.Error())
+		default:
+			ok := len(real) == len(results)
+			for i := 0; ok && i < len(real); i++ {
+				r, m := real[i], results[i]
+				if r.ErrClass != m.ErrClass || r.SrcExists != m.SrcExists || r.SrcData != m.SrcData || r.DstData != m.DstData {
+					w.sc = scs[i]
+					w.violate("model-disagrees-with-real-fs", fmt.Sprintf("call %d of %d: simulated %+v, real file system %+v (a defect of the simulated file system, or behaviour that depends on what an earlier call left in the package)", i+1, len(real), m, r))
+					ok = false
+				}
+			}
+			if ok {
+				simrt.Probe("traces_validated_against_real_fs")
+			}
+		}
+	}
+}
+
+// doCall lays one call's files out, runs it under its fault plan and holds it
+// to the oracle.
+func (w *world) doCall(f *sos.FS, c call, last bool) result {
+	s := c.sc
+	w.sc = s
+	o := simOps{f, c.sub}
+	src, dst, steps := build(s)
+	for _, st := range steps {
+		st(o)
+	}
+	f.PlanK = map[int]int{}
+	for _, fl := range c.faults {
+		f.PlanK[fl.at] = fl.kind
+	}
+	sp, dp := o.p(src), o.p(dst)
 	srcInode := f.Lookup(sp)
 	var snap []byte
 	if srcInode != nil {
@@ -266,6 +371,7 @@ func (w *world) main() {
 	srcName, dstName := f.LookupNoFollow(sp), f.LookupNoFollow(dp)
 	sameName := srcName != nil && srcName == dstName
 	f.Trace = nil
+	nFired := len(f.Fired)
 	// "removes the source only after the destination is complete"
 	f.OnCall = func(idx int, c *sos.Call) {
 		if c.Op == "unlink" && c.Path == sp && srcInode != nil && srcInode.IsRegular() {
@@ -276,13 +382,14 @@ func (w *world) main() {
 		}
 	}
 	var err error
-	if s.op == 0 {
+	if s.Op == 0 {
 		_, err = osutil.CopyFile(sp, dp)
 	} else {
 		err = osutil.MoveFile(sp, dp)
 	}
 	f.OnCall = nil
-	for _, fired := range f.Fired {
+	f.PlanK = map[int]int{}
+	for _, fired := range f.Fired[nFired:] {
 		simrt.Fault("fs." + fired)
 	}
 	var ops []string
@@ -293,59 +400,49 @@ func (w *world) main() {
 		}
 		ops = append(ops, o)
 	}
-	w.nt = true
-	simrt.Note("result", fmt.Sprintf("%s err=%v trace=%s", s, err, strings.Join(ops, ",")))
+	simrt.Note("result", fmt.Sprintf("%s%s err=%v trace=%s", s, c.sub, err, strings.Join(ops, ",")))
 
 	srcAfter := f.Lookup(sp)
 	dstAfter := f.Lookup(dp)
 	res := result{Err: fmt.Sprint(err), ErrClass: errClass(err), SrcExists: f.LookupNoFollow(sp) != nil, SrcData: digest(dataOf(srcAfter)), DstData: digest(dataOf(dstAfter))}
-	w.smp = map[string]any{"scenario": s.String(), "faults": f.Fired, "calls": ops, "result": res}
+	w.calls = append(w.calls, ops)
+	if last {
+		w.smp = map[string]any{"scenario": s.String(), "faults": f.Fired[nFired:], "calls": ops, "result": res, "earlier_calls_in_history": len(f.Fired[:nFired])}
+	}
 
-	op := []string{"CopyFile", "MoveFile"}[s.op]
+	op := []string{"CopyFile", "MoveFile"}[s.Op]
 	switch {
 	case srcInode != nil && !srcInode.IsRegular():
 		// the source is a directory: the property speaks about files; only the
-		// agreement with the real file system (below) and "no panic" apply
+		// agreement with the real file system and "no panic" apply
 	case srcInode == nil:
 		if err == nil {
 			w.violate("nil-for-missing-source", op+" returned nil although the source does not exist")
 		}
-	case err == nil && s.op == 0:
+	case err == nil && s.Op == 0:
 		if dstAfter == nil || !bytes.Equal(dstAfter.Data, snap) {
 			w.violate("copy-nil-destination-wrong", fmt.Sprintf("CopyFile returned nil but the destination holds %s, the source held %s", digest(dataOf(dstAfter)), digest(snap, true)))
 		}
 		if srcAfter == nil || !bytes.Equal(srcAfter.Data, snap) {
 			w.violate("copy-nil-source-damaged", fmt.Sprintf("CopyFile returned nil but the source now holds %s, it held %s", digest(dataOf(srcAfter)), digest(snap, true)))
 		}
-	case err != nil && s.op == 0:
+	case err != nil && s.Op == 0:
 		if srcAfter == nil || !bytes.Equal(srcAfter.Data, snap) {
 			w.violate("copy-error-source-damaged", fmt.Sprintf("CopyFile returned %v and the source now holds %s, it held %s", err, digest(dataOf(srcAfter)), digest(snap, true)))
 		}
-	case err == nil && s.op == 1:
+	case err == nil && s.Op == 1:
 		if dstAfter == nil || !bytes.Equal(dstAfter.Data, snap) {
 			w.violate("move-nil-destination-wrong", fmt.Sprintf("MoveFile returned nil but the destination holds %s, the source held %s", digest(dataOf(dstAfter)), digest(snap, true)))
 		}
 		if res.SrcExists && !sameName {
 			w.violate("move-nil-source-still-there", "MoveFile returned nil but the source name still exists")
 		}
-	case err != nil && s.op == 1:
+	case err != nil && s.Op == 1:
 		if srcAfter == nil || !bytes.Equal(srcAfter.Data, snap) {
 			w.violate("move-error-source-lost", fmt.Sprintf("MoveFile returned %v and the source now holds %s, it held %s", err, digest(dataOf(srcAfter)), digest(snap, true)))
 		}
 	}
-
-	// stub fidelity: the fault-free scenario on the real file system
-	if nFaults == 0 && os.Getenv("FSWORLD_REALFS") != "0" {
-		real, rerr := realRun(s)
-		switch {
-		case rerr != nil:
-			simrt.Probe("realfs_unavailable")
-		case real.ErrClass != res.ErrClass || real.SrcExists != res.SrcExists || real.SrcData != res.SrcData || real.DstData != res.DstData:
-			w.violate("model-disagrees-with-real-fs", fmt.Sprintf("simulated %+v, real file system %+v (this is a defect of the simulated file system, not of glb)", res, real))
-		default:
-			simrt.Probe("traces_validated_against_real_fs")
-		}
-	}
+	return res
 }
 
 func dataOf(n *sos.Inode) ([]byte, bool) {
@@ -376,7 +473,45 @@ func must(err error) {
 	}
 }
 
-func realRun(s scenario) (res result, err error) {
+// realRun executes the history in a child process (fresh package state of the
+// unrewritten osutil, as every simulated run has).
+func realRun(scs []scenario) ([]result, error) {
+	arg, _ := json.Marshal(scs)
+	self, err := os.Executable()
+	if err != nil {
+		return nil, err
+	}
+	out, err := exec.Command(self, "-realfs", string(arg)).Output()
+	if err != nil {
+		return nil, fmt.Errorf("real-fs child: %v", err)
+	}
+	var rep struct {
+		Results []result `json:"results"`
+		Err     string   `json:"err"`
+	}
+	if err := json.Unmarshal(out, &rep); err != nil {
+		return nil, fmt.Errorf("real-fs child output: %v", err)
+	}
+	if rep.Err != "" {
+		return nil, errors.New(rep.Err)
+	}
+	return rep.Results, nil
+}
+
+func realChild(arg string) {
+	var scs []scenario
+	rep := map[string]any{}
+	if err := json.Unmarshal([]byte(arg), &scs); err != nil {
+		rep["err"] = err.Error()
+	} else if res, err := realHistory(scs); err != nil {
+		rep["err"] = err.Error()
+	} else {
+		rep["results"] = res
+	}
+	json.NewEncoder(os.Stdout).Encode(rep)
+}
+
+func realHistory(scs []scenario) (out []result, err error) {
 	defer func() {
 		if p := recover(); p != nil {
 			err = fmt.Errorf("%v", p)
@@ -384,7 +519,7 @@ func realRun(s scenario) (res result, err error) {
 	}()
 	wdir, e := os.MkdirTemp("", "fsworld-w-")
 	if e != nil {
-		return res, e
+		return nil, e
 	}
 	defer os.RemoveAll(wdir)
 	mbase := "/dev/shm"
@@ -393,30 +528,35 @@ func realRun(s scenario) (res result, err error) {
 	}
 	mdir, e := os.MkdirTemp(mbase, "fsworld-m-")
 	if e != nil {
-		return res, e
+		return nil, e
 	}
 	defer os.RemoveAll(mdir)
-	if strings.HasPrefix(dstKinds[s.dstKind], "other-mount") && !differentDevice(wdir, mdir) {
-		return res, errors.New("no second mount available")
+	diffDev := differentDevice(wdir, mdir)
+	for i, s := range scs {
+		if (strings.HasPrefix(dstKinds[s.DstKind], "other-mount") || strings.Contains(dstKinds[s.DstKind], "on-other-mount")) && !diffDev {
+			return nil, errors.New("no second mount available")
+		}
+		o := realOps{filepath.Join(wdir, fmt.Sprint("c", i)), filepath.Join(mdir, fmt.Sprint("c", i))}
+		must(os.MkdirAll(o.w, 0755))
+		must(os.MkdirAll(o.m, 0755))
+		src, dst, steps := build(s)
+		for _, st := range steps {
+			st(o)
+		}
+		var rerr error
+		if s.Op == 0 {
+			_, rerr = realosutil.CopyFile(o.p(src), o.p(dst))
+		} else {
+			rerr = realosutil.MoveFile(o.p(src), o.p(dst))
+		}
+		rd := func(p string) ([]byte, bool) {
+			b, e := os.ReadFile(p)
+			return b, e == nil
+		}
+		_, lerr := os.Lstat(o.p(src))
+		out = append(out, result{Err: fmt.Sprint(rerr), ErrClass: errClass(rerr), SrcExists: lerr == nil, SrcData: digest(rd(o.p(src))), DstData: digest(rd(o.p(dst)))})
 	}
-	o := realOps{wdir, mdir}
-	src, dst, steps := build(s)
-	for _, st := range steps {
-		st(o)
-	}
-	var rerr error
-	if s.op == 0 {
-		_, rerr = realosutil.CopyFile(o.p(src), o.p(dst))
-	} else {
-		rerr = realosutil.MoveFile(o.p(src), o.p(dst))
-	}
-	rd := func(p string) ([]byte, bool) {
-		b, e := os.ReadFile(p)
-		return b, e == nil
-	}
-	_, lerr := os.Lstat(o.p(src))
-	res = result{Err: fmt.Sprint(rerr), ErrClass: errClass(rerr), SrcExists: lerr == nil, SrcData: digest(rd(o.p(src))), DstData: digest(rd(o.p(dst)))}
-	return res, nil
+	return out, nil
 }
 
 func differentDevice(a, b string) bool {
@@ -475,5 +615,37 @@ func enumerate(prop string) [][]int {
 			}
 		}
 	}
+	// (c) histories of two calls: every single-fault placement in an earlier
+	// CopyFile / MoveFile, followed by a fault-free call under test
+	mains := [][]int{{0, 4, 0, 0}, {1, 4, 0, 12}} // CopyFile(32769 -> missing), MoveFile(32769 -> other mount)
+	os.Setenv("FSWORLD_REALFS", "0")
+	for pop := 0; pop < 2; pop++ {
+		for ps := range preSizes {
+			for pd := range preDst {
+				base := append(append([]int{}, prefix...), mains[0]...)
+				base = append(base, 0, 1, pop, ps, pd)
+				o := run(simrt.NewTrace(append(append([]int{}, base...), 0)), prop, false)
+				var calls []string
+				if m, ok := o.Sample.(map[string]any); ok {
+					if hc, _ := m["history_calls"].([][]string); len(hc) == 2 {
+						calls = hc[0]
+					}
+				}
+				for i, op := range calls {
+					n := len(sos.Faults[op])
+					if op == "write" {
+						n *= 3
+					}
+					for k := 0; k < n; k++ {
+						for _, mc := range mains {
+							c := append(append([]int{}, prefix...), mc...)
+							out = append(out, append(c, 0, 1, pop, ps, pd, 1, i, k))
+						}
+					}
+				}
+			}
+		}
+	}
+	os.Unsetenv("FSWORLD_REALFS")
 	return out
 }
